@@ -83,3 +83,36 @@ Example C02_example :
     ARecorded (U"input: old args={""py/tuple"": [1]}, kwargs=[]") (OVal (VInt 7)) /\
   input_policy R (cf VMNone FbNone) [VInt 1] [] = AMissing.
 Proof. vm_compute. repeat split; reflexivity. Qed.
+
+(** ---- non-vacuity per theorem (wp-audit).  The theorems above without a premise need none; the two with one:
+    [C02_no_body_runs] (no_run_missing) and [C02_replay_repeatable] (idle), on a program with a nested input,
+    an output and a saved recording, so that the conclusions are not trivially true ---- *)
+Definition c02_in : icfg :=
+  {| i_alias := U"get"; i_resolver := RNone; i_cap := CapAll; i_static := true; i_handler := None;
+     i_prep_discards := false; i_run_missing := false; i_vmiss := VMNone; i_fallbacks := FbNone |}.
+Definition c02_out : ocfg := {| o_alias := U"send"; o_static := true; o_handler := None; o_fail := true; o_default := VNone |}.
+Definition c02_prog : code :=
+  Inp c02_in (Inp c02_in (Ret (Lit (VInt 9))) [Lit (VInt 2)] [] (Ret (Var 1))) [Lit (VInt 1)] []
+    (Out c02_out (Ret (Lit VNone)) [Var 0] [] (Ret (Var 0))).
+Definition c02_op : opdef := {| op_class := U"Op"; op_classlevel := false; op_extractor := XNone; op_body := c02_prog |}.
+Definition c02_P : prm := {| p_rate := 1; p_ignore := false; p_skipped := false; p_copy := false |}.
+
+(* no_body_runs: recorded first, then replayed against what was saved *)
+Example C02_no_body_runs_nonvacuous :
+  let '(ob, w') := record_run (fun _ => 0) true c02_P c02_op false fresh_rst fresh_world in
+  match w_saved w' with
+  | [(_, st)] =>
+      let '(o, _, l) := play_exec (fst (fetch st)) c02_prog [] (mk_pst [] true) in
+      no_run_missing c02_prog /\ o = OVal (VInt 9) /\ bodies_of l = [] /\ length (answers_of l) = 2%nat /\
+      bodies_of (ob_trace ob) = [U"get"; U"get"; U"send"]
+  | _ => False
+  end.
+Proof. vm_compute. repeat split; reflexivity. Qed.
+
+Example C02_replay_repeatable_nonvacuous :
+  let '(ob, w') := record_run (fun _ => 0) true c02_P c02_op false fresh_rst fresh_world in
+  let '(ob1, w1) := play_run true 0%nat (PfOp c02_op) (ob_state ob) w' in
+  idle (ob_state ob) /\ ob_cass ob1 = [CGet true] /\ ob_outcome ob1 = OVal VNone /\
+  length (ob_pbouts ob1) = 2%nat /\ ob_pbouts ob1 = ob_recouts ob1 /\
+  play_run true 0%nat (PfOp c02_op) (ob_state ob1) w1 = (ob1, w1).
+Proof. vm_compute. repeat split; reflexivity. Qed.
